@@ -27,7 +27,10 @@ def analyse(prop: str, src: str, overlay=None):
     prog = Program(src, overlay)
     ctx = Ctx(prog, prop)
     mod.run(ctx)
-    ctx.check_floors()
+    if overlay is None:
+        # floors guard the real tree against vacuous passes; overlay runs (self-validation) edit the
+        # code on purpose and are judged by the findings they add or do not add
+        ctx.check_floors()
     return ctx, mod
 
 
